@@ -1,11 +1,2150 @@
-// In-crate verification harness (stub; see /verif/docs/SLICE_GUIDE.md).
-#![allow(clippy::pedantic, clippy::all, dead_code, unused_imports)]
+// In-crate verification harness for area `abci` (properties C05, C06).
+//
+// Hooked into /repo as `app::verif_abci` (child of `crate::app`, feature `verif-abci`), so it sees
+// `App`'s private fields and methods, `app::execution_state`, and the crate's test utilities.
+//
+// One line per operation: `abci <op> <args…> => <result>` (see /verif/docs/SLICE_GUIDE.md).
+// The phases executed by each ABCI call are observed without touching /repo through a
+// thread-local `tracing` subscriber that records the spans the code's own `#[instrument]`
+// attributes create (pre_execute_transactions, execute_transaction, …) and the `err` events of
+// `App::execute_transaction`.
+#![allow(clippy::pedantic, clippy::all, dead_code, unused_imports, unused_variables)]
 
 #[path = "/verif/harness/common.rs"]
 mod common;
 
+use std::{
+    collections::{
+        BTreeMap,
+        HashMap,
+    },
+    sync::{
+        atomic::{
+            AtomicU64,
+            Ordering as AtomicOrdering,
+        },
+        Arc,
+        Mutex,
+    },
+};
+
+use astria_core::{
+    crypto::SigningKey,
+    generated::{
+        astria::protocol::transaction::v1 as raw_tx,
+        price_feed::abci::v2::OracleVoteExtension as RawOracleVoteExtension,
+    },
+    oracles::price_feed::types::v2::CurrencyPair,
+    primitive::v1::{
+        Address,
+        RollupId,
+    },
+    protocol::{
+        fees::v1::FeeComponents,
+        transaction::v1::{
+            action::{
+                BridgeLock,
+                CurrencyPairsChange,
+                FeeAssetChange,
+                FeeChange,
+                IbcRelayerChange,
+                InitBridgeAccount,
+                RollupDataSubmission,
+                SudoAddressChange,
+                Transfer,
+                ValidatorUpdate,
+            },
+            Action,
+            TransactionBody,
+        },
+    },
+    sequencerblock::v1::block::Deposit,
+    upgrades::test_utils::UpgradesBuilder,
+    Protobuf as _,
+};
+use cnidarium::StateRead as _;
+use futures::TryStreamExt as _;
+use sha2::{
+    Digest as _,
+    Sha256,
+};
+use tendermint::{
+    abci::types::{
+        BlockSignatureInfo,
+        CommitInfo,
+        ExtendedCommitInfo,
+        ExtendedVoteInfo,
+        Validator,
+        VoteInfo,
+    },
+    block::{
+        BlockIdFlag,
+        Height,
+        Round,
+    },
+};
+use tendermint_proto::types::CanonicalVoteExtension;
+
+use self::common::{
+    hex,
+    Rng,
+    Trace,
+};
+use super::*;
+use crate::{
+    accounts::{
+        AddressBytes as _,
+        StateReadExt as _,
+    },
+    checked_transaction::CheckedTransaction,
+    mempool::Mempool,
+    proposal::commitment::generate_rollup_datas_commitment,
+    test_utils::{
+        astria_address,
+        dummy_balances,
+        dummy_tx_costs,
+        nria,
+        Fixture,
+        ALICE,
+        BOB,
+        CAROL,
+        IBC_SUDO,
+        SUDO,
+        TEN_QUINTILLION,
+    },
+};
+
+// ------------------------------------------------------------------------------------------
+// span recorder
+// ------------------------------------------------------------------------------------------
+
+#[derive(Clone, Debug)]
+enum Ev {
+    Span(&'static str, &'static str),
+    ExecErr(String),
+}
+
+#[derive(Default)]
+struct RecInner {
+    log: Mutex<Vec<Ev>>,
+    names: Mutex<HashMap<u64, &'static str>>,
+    stack: Mutex<Vec<u64>>,
+    next: AtomicU64,
+}
+
+#[derive(Clone, Default)]
+struct Rec(Arc<RecInner>);
+
+impl Rec {
+    fn take(&self) -> Vec<Ev> {
+        std::mem::take(&mut *self.0.log.lock().unwrap())
+    }
+}
+
+struct ErrVisitor(Option<String>);
+
+impl tracing::field::Visit for ErrVisitor {
+    fn record_debug(&mut self, field: &tracing::field::Field, value: &dyn std::fmt::Debug) {
+        if field.name() == "error" {
+            self.0 = Some(format!("{value:?}"));
+        }
+    }
+}
+
+impl tracing::Subscriber for Rec {
+    fn enabled(&self, metadata: &tracing::Metadata<'_>) -> bool {
+        metadata.target().starts_with("astria_sequencer")
+    }
+
+    fn new_span(&self, attrs: &tracing::span::Attributes<'_>) -> tracing::span::Id {
+        let id = self.0.next.fetch_add(1, AtomicOrdering::SeqCst) + 1;
+        let name = attrs.metadata().name();
+        self.0.names.lock().unwrap().insert(id, name);
+        self.0
+            .log
+            .lock()
+            .unwrap()
+            .push(Ev::Span(name, attrs.metadata().target()));
+        tracing::span::Id::from_u64(id)
+    }
+
+    fn record(&self, _span: &tracing::span::Id, _values: &tracing::span::Record<'_>) {}
+
+    fn record_follows_from(&self, _span: &tracing::span::Id, _follows: &tracing::span::Id) {}
+
+    fn event(&self, event: &tracing::Event<'_>) {
+        let top = self.0.stack.lock().unwrap().last().copied();
+        let Some(top) = top else { return };
+        let name = self.0.names.lock().unwrap().get(&top).copied();
+        if name == Some("App::execute_transaction") {
+            let mut v = ErrVisitor(None);
+            event.record(&mut v);
+            if let Some(msg) = v.0 {
+                self.0.log.lock().unwrap().push(Ev::ExecErr(msg));
+            }
+        }
+    }
+
+    fn enter(&self, span: &tracing::span::Id) {
+        self.0.stack.lock().unwrap().push(span.into_u64());
+    }
+
+    fn exit(&self, span: &tracing::span::Id) {
+        let mut st = self.0.stack.lock().unwrap();
+        if let Some(pos) = st.iter().rposition(|x| *x == span.into_u64()) {
+            st.remove(pos);
+        }
+    }
+
+    fn try_close(&self, id: tracing::span::Id) -> bool {
+        self.0.names.lock().unwrap().remove(&id.into_u64());
+        true
+    }
+}
+
+/// Phase letters of one ABCI call, in order of span creation:
+/// `P` pre_execute_transactions, `C` construction of checked txs (collapsed), `O` post_execute_transactions, `$` price application (consecutive puts
+/// collapsed), `M` prepare_commit.
+fn phases(log: &[Ev]) -> String {
+    let mut s = String::new();
+    for ev in log {
+        if let Ev::Span(name, target) = ev {
+            let c = match *name {
+                "App::pre_execute_transactions" => 'P',
+                "App::post_execute_transactions" => 'O',
+                "prepare_commit" => 'M',
+                "put_price_for_currency_pair" => '$',
+                "new" if target.ends_with("checked_transaction") => 'C',
+                _ => continue,
+            };
+            if (c == '$' || c == 'C') && s.ends_with(c) {
+                continue;
+            }
+            s.push(c);
+        }
+    }
+    if s.is_empty() {
+        s.push('-');
+    }
+    s
+}
+
+/// Per executed transaction (in order of `execute_transaction` spans): `k` ok, `n` non-fatal
+/// failure, `i` invalid nonce, `f` other (fatal) failure.
+fn exec_outcomes(log: &[Ev]) -> Vec<char> {
+    let mut out = Vec::new();
+    for ev in log {
+        match ev {
+            Ev::Span(name, _) if *name == "App::execute_transaction" => out.push('k'),
+            Ev::ExecErr(msg) => {
+                if let Some(last) = out.last_mut() {
+                    *last = if msg.starts_with("invalid transaction nonce") {
+                        'i'
+                    } else if msg.contains("(non-fatal)") {
+                        'n'
+                    } else {
+                        'f'
+                    };
+                }
+            }
+            _ => {}
+        }
+    }
+    out
+}
+
+/// Per `proposal_checks_and_tx_execution` span: `s` if no execution followed (size or group
+/// skip, or break), else the execution outcome letter.
+fn check_outcomes(log: &[Ev]) -> Vec<char> {
+    let mut out: Vec<char> = Vec::new();
+    let mut in_chk = false;
+    for ev in log {
+        match ev {
+            Ev::Span(name, _) if *name == "proposal_checks_and_tx_execution" => {
+                out.push('s');
+                in_chk = true;
+            }
+            Ev::Span(name, _) if *name == "App::execute_transaction" && in_chk => {
+                if let Some(last) = out.last_mut() {
+                    *last = 'k';
+                }
+            }
+            Ev::ExecErr(msg) if in_chk => {
+                if let Some(last) = out.last_mut() {
+                    *last = if msg.starts_with("invalid transaction nonce") {
+                        'i'
+                    } else if msg.contains("(non-fatal)") {
+                        'n'
+                    } else {
+                        'f'
+                    };
+                }
+            }
+            _ => {}
+        }
+    }
+    out
+}
+
+// ------------------------------------------------------------------------------------------
+// error kinds
+// ------------------------------------------------------------------------------------------
+
+fn err_kind(e: &astria_eyre::eyre::Report) -> &'static str {
+    let s = format!("{e:#}");
+    if std::env::var("VERIF_DEBUG").is_ok() {
+        eprintln!("VERIF_DEBUG error: {s}");
+    }
+    const PATTERNS: &[(&str, &str)] = &[
+        ("block hash is empty", "nohash"),
+        ("failed to parse data items", "parse"),
+        ("failed to validate extended commit info", "ve"),
+        ("last commit is empty", "nolastcommit"),
+        ("failed to prepare for executing block", "pre"),
+        ("failed to execute block", "pre"),
+        ("do not match expected (", "upgrade"),
+        ("failed to construct checked transactions in process proposal", "construct"),
+        ("failed to execute transactions in finalize block", "construct"),
+        ("max block sequenced data limit passed", "seqlimit"),
+        ("transactions have incorrect transaction group ordering", "group"),
+        ("transaction failed to execute", "exec"),
+        ("rollup transactions commitment does not match expected", "root1"),
+        ("rollup IDs commitment does not match expected", "root2"),
+        ("failed to run post execute transactions handler", "post"),
+        ("failed to apply prices from vote extensions", "prices"),
+        ("executed txs must be present in ephemeral store", "nocache"),
+        ("prepared proposal fingerprint was not validated", "fingerprint"),
+        ("failed to create block size constraints", "constraints"),
+        ("exceeded size limit while adding", "injected"),
+        ("failed to set executed proposal fingerprint", "fingerprint"),
+        ("failed to prepare commit", "commit"),
+    ];
+    let mut best: Option<(usize, &'static str)> = None;
+    for (pat, kind) in PATTERNS {
+        if let Some(pos) = s.find(pat) {
+            if best.map_or(true, |(p, _)| pos < p) {
+                best = Some((pos, kind));
+            }
+        }
+    }
+    best.map_or("other", |(_, k)| k)
+}
+
+// ------------------------------------------------------------------------------------------
+// world
+// ------------------------------------------------------------------------------------------
+
+struct Inst {
+    app: App,
+    storage: Storage,
+}
+
+#[derive(Clone, Debug, PartialEq)]
+enum ItemKind {
+    R1,
+    R2,
+    Eci,
+    Tx(u32),
+    Garbage,
+}
+
+#[derive(Clone)]
+struct TxEnt {
+    tx: Option<Arc<CheckedTransaction>>,
+    bytes: Bytes,
+    len: usize,
+    seq: usize,
+    group: u8,
+    spec: String,
+    signer: String,
+    nonce: u32,
+}
+
+#[derive(Clone)]
+struct Blk {
+    height: u64,
+    time_s: i64,
+    proposer: u8,
+    round: u16,
+    ve: String,
+    items: Vec<(Bytes, ItemKind)>,
+    deposits: HashMap<RollupId, Vec<Deposit>>,
+    salt: u32,
+    honest: bool,
+    mutation: String,
+    prices: usize,
+    by: usize,
+}
+
+struct World {
+    insts: Vec<Inst>,
+    txs: BTreeMap<u32, TxEnt>,
+    blks: BTreeMap<u32, Blk>,
+    txs_lists: Vec<Vec<Bytes>>,
+    byte_ids: Vec<Bytes>,
+    rec: Rec,
+    trace: Trace,
+    dave: SigningKey,
+}
+
+fn key_of(w: &World, name: &str) -> SigningKey {
+    match name {
+        "alice" => ALICE.clone(),
+        "bob" => BOB.clone(),
+        "carol" => CAROL.clone(),
+        "dave" => w.dave.clone(),
+        "sudo" => SUDO.clone(),
+        "ibcsudo" => IBC_SUDO.clone(),
+        other => panic!("unknown signer {other}"),
+    }
+}
+
+fn dave_key() -> SigningKey {
+    SigningKey::try_from([0xd7_u8; 32].as_slice()).unwrap()
+}
+
+fn erin_key() -> SigningKey {
+    SigningKey::try_from([0xe1_u8; 32].as_slice()).unwrap()
+}
+
+fn addr_of(w: &World, name: &str) -> Address {
+    if name == "erin" {
+        return astria_address(&erin_key().address_bytes());
+    }
+    astria_address(&key_of(w, name).address_bytes())
+}
+
+async fn new_inst(dave: &SigningKey) -> Inst {
+    let mut fixture = Fixture::uninitialized(None).await;
+    let accounts = vec![
+        (astria_address(&ALICE.address_bytes()), TEN_QUINTILLION),
+        (astria_address(&BOB.address_bytes()), TEN_QUINTILLION),
+        (astria_address(&CAROL.address_bytes()), TEN_QUINTILLION),
+        (astria_address(&dave.address_bytes()), TEN_QUINTILLION),
+        (astria_address(&SUDO.address_bytes()), TEN_QUINTILLION),
+        (astria_address(&IBC_SUDO.address_bytes()), TEN_QUINTILLION),
+    ];
+    fixture
+        .chain_initializer()
+        .with_genesis_accounts(accounts)
+        .init()
+        .await;
+    let _ = fixture.run_until_blackburn_applied().await;
+    let (app, storage) = fixture.destructure();
+    Inst {
+        app,
+        storage,
+    }
+}
+
+async fn restart(inst: &mut Inst) {
+    let metrics = inst.app.metrics;
+    let mempool = Mempool::new(metrics, 100, 100);
+    let upgrades_handler = UpgradesBuilder::new()
+        .set_aspen(Some(1))
+        .set_blackburn(Some(3))
+        .build()
+        .into();
+    let ve_handler = vote_extension::Handler::new(None);
+    inst.app = App::new(
+        inst.storage.latest_snapshot(),
+        mempool,
+        upgrades_handler,
+        ve_handler,
+        metrics,
+    )
+    .await
+    .unwrap();
+}
+
+async fn committed_height(inst: &Inst) -> u64 {
+    inst.storage
+        .latest_snapshot()
+        .get_block_height()
+        .await
+        .unwrap_or(0)
+}
+
+fn h8(bytes: &[u8]) -> String {
+    hex(&bytes[..bytes.len().min(4)])
+}
+
+fn h16(bytes: &[u8]) -> String {
+    hex(&bytes[..bytes.len().min(8)])
+}
+
+async fn state_digest(storage: &Storage) -> String {
+    let snap = storage.latest_snapshot();
+    let mut hv = Sha256::new();
+    let mut nv = 0_u64;
+    let mut stream = snap.prefix_raw("");
+    while let Some((k, v)) = stream.try_next().await.unwrap() {
+        hv.update((k.len() as u64).to_le_bytes());
+        hv.update(k.as_bytes());
+        hv.update((v.len() as u64).to_le_bytes());
+        hv.update(&v);
+        nv += 1;
+    }
+    let mut hn = Sha256::new();
+    let mut nn = 0_u64;
+    let mut stream = snap.nonverifiable_prefix_raw(b"");
+    while let Some((k, v)) = stream.try_next().await.unwrap() {
+        hn.update((k.len() as u64).to_le_bytes());
+        hn.update(&k);
+        hn.update((v.len() as u64).to_le_bytes());
+        hn.update(&v);
+        nn += 1;
+    }
+    format!(
+        "sv={}:{} snv={}:{}",
+        nv,
+        h16(&hv.finalize()),
+        nn,
+        h16(&hn.finalize())
+    )
+}
+
+// ------------------------------------------------------------------------------------------
+// op argument parsing
+// ------------------------------------------------------------------------------------------
+
+fn args(op: &str) -> HashMap<String, String> {
+    let mut m = HashMap::new();
+    for w in op.split(' ').skip(2) {
+        if let Some((k, v)) = w.split_once('=') {
+            m.insert(k.to_string(), v.to_string());
+        }
+    }
+    m
+}
+
+fn arg_u64(a: &HashMap<String, String>, k: &str) -> u64 {
+    a.get(k)
+        .and_then(|s| s.parse::<u64>().ok())
+        .unwrap_or_else(|| panic!("missing numeric arg {k}"))
+}
+
+fn arg_id(a: &HashMap<String, String>, k: &str) -> u32 {
+    let s = a.get(k).unwrap_or_else(|| panic!("missing arg {k}"));
+    s.trim_start_matches(|c: char| c.is_ascii_alphabetic())
+        .parse::<u32>()
+        .unwrap_or_else(|_| panic!("bad id arg {k}={s}"))
+}
+
+// ------------------------------------------------------------------------------------------
+// actions / transactions
+// ------------------------------------------------------------------------------------------
+
+fn parse_action(w: &World, spec: &str) -> Action {
+    let p: Vec<&str> = spec.split('.').collect();
+    match p[0] {
+        "xfer" => Action::Transfer(Transfer {
+            to: addr_of(w, p[1]),
+            amount: p[2].parse::<u128>().unwrap(),
+            asset: nria().into(),
+            fee_asset: nria().into(),
+        }),
+        "seq" => {
+            let rid: u8 = p[1].parse().unwrap();
+            let len: usize = p[2].parse().unwrap();
+            let data: Vec<u8> = (0..len)
+                .map(|i| (i as u8).wrapping_mul(31).wrapping_add(rid))
+                .collect();
+            Action::RollupDataSubmission(RollupDataSubmission {
+                rollup_id: RollupId::new([rid; 32]),
+                data: Bytes::from(data),
+                fee_asset: nria().into(),
+            })
+        }
+        "valup" => {
+            let key = if p[1] == "erin" {
+                erin_key()
+            } else {
+                key_of(w, p[1])
+            };
+            Action::ValidatorUpdate(ValidatorUpdate {
+                power: p[2].parse().unwrap(),
+                verification_key: key.verification_key(),
+                name: p[1].parse().unwrap(),
+            })
+        }
+        "initbridge" => {
+            let rid: u8 = p[1].parse().unwrap();
+            Action::InitBridgeAccount(InitBridgeAccount {
+                rollup_id: RollupId::new([rid; 32]),
+                asset: nria().into(),
+                fee_asset: nria().into(),
+                sudo_address: None,
+                withdrawer_address: None,
+            })
+        }
+        "lock" => Action::BridgeLock(BridgeLock {
+            to: addr_of(w, p[1]),
+            amount: p[2].parse().unwrap(),
+            asset: nria().into(),
+            fee_asset: nria().into(),
+            destination_chain_address: "dest".to_string(),
+        }),
+        "relayer" => {
+            let a = addr_of(w, p[2]);
+            Action::IbcRelayerChange(if p[1] == "add" {
+                IbcRelayerChange::Addition(a)
+            } else {
+                IbcRelayerChange::Removal(a)
+            })
+        }
+        "pair" => {
+            let pair: CurrencyPair = format!("{}/USD", p[2]).parse().unwrap();
+            let set = std::iter::once(pair).collect();
+            Action::CurrencyPairsChange(if p[1] == "add" {
+                CurrencyPairsChange::Addition(set)
+            } else {
+                CurrencyPairsChange::Removal(set)
+            })
+        }
+        "feechg" => Action::FeeChange(FeeChange::Transfer(FeeComponents::new(
+            p[1].parse().unwrap(),
+            0,
+        ))),
+        "feeasset" => {
+            let d = p[2].parse().unwrap();
+            Action::FeeAssetChange(if p[1] == "add" {
+                FeeAssetChange::Addition(d)
+            } else {
+                FeeAssetChange::Removal(d)
+            })
+        }
+        "sudo" => Action::SudoAddressChange(SudoAddressChange {
+            new_address: addr_of(w, p[1]),
+        }),
+        "badibc" => Action::Ibc(super::tests_app::bad_ibc_relay()),
+        other => panic!("unknown action spec {other}"),
+    }
+}
+
+fn sign_tx(w: &World, signer: &str, nonce: u32, acts: &str) -> Option<Bytes> {
+    let actions: Vec<Action> = acts.split('+').map(|s| parse_action(w, s)).collect();
+    let body = TransactionBody::builder()
+        .nonce(nonce)
+        .chain_id("test".to_string())
+        .actions(actions)
+        .try_build()
+        .ok()?;
+    let tx = body.sign(&key_of(w, signer));
+    Some(Bytes::from(tx.into_raw().encode_to_vec()))
+}
+
+fn group_num(g: Group) -> u8 {
+    match g {
+        Group::UnbundleableSudo => 1,
+        Group::BundleableSudo => 2,
+        Group::UnbundleableGeneral => 3,
+        Group::BundleableGeneral => 4,
+    }
+}
+
+// ------------------------------------------------------------------------------------------
+// vote extensions
+// ------------------------------------------------------------------------------------------
+
+/// `none` | `<round>/<a>/<b>/<c>` with each validator spec `-` (absent), `bad` (commit flag,
+/// prices 1:1, invalid signature) or `<p0>:<p1>` prices for pair ids 0 and 1 (`_` = no price).
+fn build_ve(ve: &str, height: u64) -> (ExtendedCommitInfo, CommitInfo, usize) {
+    if ve == "none" {
+        return (
+            ExtendedCommitInfo {
+                round: Round::default(),
+                votes: vec![],
+            },
+            CommitInfo {
+                round: Round::default(),
+                votes: vec![],
+            },
+            0,
+        );
+    }
+    let parts: Vec<&str> = ve.split('/').collect();
+    let round: u16 = parts[0].parse().unwrap();
+    let keys = [ALICE.clone(), BOB.clone(), CAROL.clone()];
+    let mut votes = vec![];
+    let mut plain = vec![];
+    let mut priced = [false, false];
+    let mut committed = 0;
+    for (i, key) in keys.iter().enumerate() {
+        let spec = parts.get(i + 1).copied().unwrap_or("-");
+        let validator = Validator {
+            address: key.address_bytes(),
+            power: 10_u32.into(),
+        };
+        if spec == "-" {
+            votes.push(ExtendedVoteInfo {
+                validator: validator.clone(),
+                sig_info: BlockSignatureInfo::Flag(BlockIdFlag::Absent),
+                vote_extension: Bytes::new(),
+                extension_signature: None,
+            });
+            plain.push(VoteInfo {
+                validator,
+                sig_info: BlockSignatureInfo::Flag(BlockIdFlag::Absent),
+            });
+            continue;
+        }
+        let bad = spec == "bad";
+        let pr: Vec<&str> = if bad {
+            vec!["1", "1"]
+        } else {
+            spec.split(':').collect()
+        };
+        let mut prices = BTreeMap::new();
+        for (id, p) in pr.iter().enumerate() {
+            if *p != "_" {
+                let v: i128 = p.parse().unwrap();
+                prices.insert(id as u64, Bytes::from(v.to_be_bytes().to_vec()));
+                if id < 2 {
+                    priced[id] = true;
+                }
+            }
+        }
+        let extension_bytes = RawOracleVoteExtension {
+            prices,
+        }
+        .encode_to_vec();
+        let message = CanonicalVoteExtension {
+            extension: extension_bytes.clone(),
+            height: i64::try_from(height.saturating_sub(1)).unwrap(),
+            round: i64::from(round),
+            chain_id: "test".to_string(),
+        }
+        .encode_length_delimited_to_vec();
+        let mut sig = key.sign(&message).to_bytes().to_vec();
+        if bad {
+            sig[3] ^= 0x40;
+        }
+        committed += 1;
+        votes.push(ExtendedVoteInfo {
+            validator: validator.clone(),
+            sig_info: BlockSignatureInfo::Flag(BlockIdFlag::Commit),
+            vote_extension: extension_bytes.into(),
+            extension_signature: Some(sig.try_into().unwrap()),
+        });
+        plain.push(VoteInfo {
+            validator,
+            sig_info: BlockSignatureInfo::Flag(BlockIdFlag::Commit),
+        });
+    }
+    let nprices = if committed >= 3 || committed * 3 > 2 * 3 {
+        priced.iter().filter(|b| **b).count()
+    } else {
+        0
+    };
+    (
+        ExtendedCommitInfo {
+            round: round.into(),
+            votes,
+        },
+        CommitInfo {
+            round: round.into(),
+            votes: plain,
+        },
+        nprices,
+    )
+}
+
+// ------------------------------------------------------------------------------------------
+// blocks
+
+/// does the extended-commit-info data item decode the way `ExpandedBlockData::new_from_typed_data`
+/// needs it to?
+fn eci_well_formed(item: &Bytes) -> bool {
+    use astria_core::generated::astria::{
+        protocol::price_feed::v1::ExtendedCommitInfoWithCurrencyPairMapping as RawEci,
+        sequencerblock::v1::{
+            data_item::Value,
+            DataItem as RawDataItem,
+        },
+    };
+    let Ok(raw) = RawDataItem::decode(item.clone()) else {
+        return false;
+    };
+    let Some(Value::ExtendedCommitInfo(bytes)) = raw.value else {
+        return false;
+    };
+    let Ok(raw) = RawEci::decode(bytes) else {
+        return false;
+    };
+    ExtendedCommitInfoWithCurrencyPairMapping::try_from_raw(raw).is_ok()
+}
+
+/// number of prices `apply_prices_from_vote_extensions` will put for this item
+fn eci_price_count(item: &Bytes) -> usize {
+    use astria_core::generated::astria::{
+        protocol::price_feed::v1::ExtendedCommitInfoWithCurrencyPairMapping as RawEci,
+        sequencerblock::v1::{
+            data_item::Value,
+            DataItem as RawDataItem,
+        },
+    };
+    let Ok(raw) = RawDataItem::decode(item.clone()) else {
+        return 0;
+    };
+    let Some(Value::ExtendedCommitInfo(bytes)) = raw.value else {
+        return 0;
+    };
+    let Ok(raw) = RawEci::decode(bytes) else {
+        return 0;
+    };
+    let Ok(info) = ExtendedCommitInfoWithCurrencyPairMapping::try_from_raw(raw) else {
+        return 0;
+    };
+    astria_core::oracles::price_feed::utils::calculate_prices_from_vote_extensions(
+        &info.extended_commit_info,
+        &info.id_to_currency_pair,
+    )
+    .map_or(0, |p| p.len())
+}
+// ------------------------------------------------------------------------------------------
+
+fn shape_of(b: &Blk) -> String {
+    let mut shape = vec![];
+    for (bytes, kind) in &b.items {
+        shape.push(match kind {
+            ItemKind::R1 => "R1".to_string(),
+            ItemKind::R2 => "R2".to_string(),
+            ItemKind::Eci => format!("E:{}", bytes.len()),
+            ItemKind::Tx(t) => format!("T{t}"),
+            ItemKind::Garbage => format!("G:{}", bytes.len()),
+        });
+    }
+    if shape.is_empty() {
+        "-".to_string()
+    } else {
+        shape.join(",")
+    }
+}
+
+fn blk_txs(b: &Blk) -> Vec<Bytes> {
+    b.items.iter().map(|(bytes, _)| bytes.clone()).collect()
+}
+
+fn blk_hash(b: &Blk) -> [u8; 32] {
+    let mut h = Sha256::new();
+    h.update(b.height.to_le_bytes());
+    h.update(b.time_s.to_le_bytes());
+    h.update([b.proposer]);
+    h.update(b.round.to_le_bytes());
+    h.update(b.ve.as_bytes());
+    h.update(b.salt.to_le_bytes());
+    for (bytes, _) in &b.items {
+        h.update((bytes.len() as u64).to_le_bytes());
+        h.update(bytes);
+    }
+    h.finalize().into()
+}
+
+fn time_of(b: &Blk) -> Time {
+    Time::from_unix_timestamp(b.time_s, 0).unwrap()
+}
+
+fn proposer_of(b: &Blk) -> account::Id {
+    account::Id::new([b.proposer; 20])
+}
+
+impl World {
+    fn txs_list_id(&mut self, txs: &[Bytes]) -> usize {
+        if let Some(pos) = self.txs_lists.iter().position(|l| l.as_slice() == txs) {
+            return pos;
+        }
+        self.txs_lists.push(txs.to_vec());
+        self.txs_lists.len() - 1
+    }
+
+    fn byte_id(&mut self, bytes: &Bytes) -> usize {
+        if let Some(pos) = self.byte_ids.iter().position(|b| b == bytes) {
+            return pos;
+        }
+        self.byte_ids.push(bytes.clone());
+        self.byte_ids.len() - 1
+    }
+
+    /// `h=.. t=.. p=.. lc=.. x=<txs list id> hash=.. er=.. np=.. src=.. shape=.. items=..` —
+    /// everything the model needs to know about a block: the seven fingerprint fields (height,
+    /// time, proposer, last commit (`round:ve`), misbehavior (always empty), next validators hash
+    /// (always default), txs as the id of the byte-string list), the block hash, and every data
+    /// item as `<kind>#<id of its byte string>`; `er` are the ids of the two commitment items
+    /// recomputed by the harness over the transactions the block carries.
+    fn blk_desc(&mut self, id: u32) -> String {
+        let b = self.blks[&id].clone();
+        let xs = self.txs_list_id(&blk_txs(&b));
+        let mut items = vec![];
+        let mut shape = vec![];
+        for (bytes, kind) in &b.items {
+            let bid = self.byte_id(bytes);
+            match kind {
+                ItemKind::R1 => {
+                    items.push(format!("R1#{bid}"));
+                    shape.push("R1".to_string());
+                }
+                ItemKind::R2 => {
+                    items.push(format!("R2#{bid}"));
+                    shape.push("R2".to_string());
+                }
+                ItemKind::Eci => {
+                    items.push(format!("E#{bid}:{}:{}", bytes.len(), u8::from(eci_well_formed(bytes))));
+                    shape.push(format!("E:{}", bytes.len()));
+                }
+                ItemKind::Tx(t) => {
+                    items.push(format!("T{t}"));
+                    shape.push(format!("T{t}"));
+                }
+                ItemKind::Garbage => {
+                    items.push(format!("G#{bid}:{}", bytes.len()));
+                    shape.push(format!("G:{}", bytes.len()));
+                }
+            }
+        }
+        // expected commitments over the transactions the block carries (recomputed here)
+        let mut checked = vec![];
+        for (_, kind) in &b.items {
+            if let ItemKind::Tx(t) = kind {
+                if let Some(tx) = &self.txs[t].tx {
+                    checked.push(tx.clone());
+                }
+            }
+        }
+        let exp = generate_rollup_datas_commitment::<true>(&checked, b.deposits.clone());
+        let mut exp_items = exp.into_iter();
+        let e1 = exp_items.next().unwrap();
+        let e2 = exp_items.next().unwrap();
+        let e1 = self.byte_id(&e1);
+        let e2 = self.byte_id(&e2);
+        format!(
+            "h={} t={} p={} lc={}:{} x={} hash={} er={},{} np={} src={} by={} items={}",
+            b.height,
+            b.time_s,
+            b.proposer,
+            b.round,
+            if b.ve == "none" { "none".to_string() } else { b.ve.replace('/', "~") },
+            xs,
+            h8(&blk_hash(&b)),
+            e1,
+            e2,
+            b.prices,
+            b.mutation,
+            b.by,
+            if items.is_empty() { "-".to_string() } else { items.join(",") },
+        )
+    }
+
+    /// canonical text of the execution state; the cached proposal is identified by its
+    /// seven-field tuple, found by comparing (with the code's own `PartialEq`) against the
+    /// fingerprint each known block would produce.
+    fn exec_dump(&mut self, i: usize) -> String {
+        let st = self.insts[i].app.execution_state.data().clone();
+        match st {
+            ExecutionState::Unset => "Unset".to_string(),
+            ExecutionState::Prepared(c) => format!("Prepared:{}", self.cp_label(&ExecutionState::Prepared(c))),
+            ExecutionState::PreparedValid(c) => {
+                format!("PreparedValid:{}", self.cp_label(&ExecutionState::Prepared(c)))
+            }
+            ExecutionState::CheckedPreparedMismatch(c) => {
+                format!("CheckedPreparedMismatch:{}", self.cp_label(&ExecutionState::Prepared(c)))
+            }
+            ExecutionState::ExecutedBlock {
+                cached_block_hash,
+                cached_proposal,
+            } => format!(
+                "ExecutedBlock:{}:{}",
+                h8(&cached_block_hash),
+                cached_proposal.map_or("none".to_string(), |c| self.cp_label(&ExecutionState::Prepared(c)))
+            ),
+            ExecutionState::CheckedExecutedBlockMismatch {
+                cached_block_hash,
+                cached_proposal,
+            } => format!(
+                "CheckedExecutedBlockMismatch:{}:{}",
+                h8(&cached_block_hash),
+                cached_proposal.map_or("none".to_string(), |c| self.cp_label(&ExecutionState::Prepared(c)))
+            ),
+        }
+    }
+
+    fn cp_label(&mut self, prepared: &ExecutionState) -> String {
+        let ids: Vec<u32> = self.blks.keys().copied().collect();
+        for id in ids {
+            let b = self.blks[&id].clone();
+            let (eci, _, _) = build_ve(&b.ve, b.height);
+            let req = abci::request::PrepareProposal {
+                max_tx_bytes: 0,
+                txs: vec![],
+                local_last_commit: Some(eci),
+                misbehavior: vec![],
+                height: Height::try_from(b.height).unwrap(),
+                time: time_of(&b),
+                next_validators_hash: Hash::default(),
+                proposer_address: proposer_of(&b),
+            };
+            let mut m = ExecutionStateMachine::new();
+            m.set_prepared_proposal(
+                req,
+                abci::response::PrepareProposal {
+                    txs: blk_txs(&b),
+                },
+            )
+            .unwrap();
+            if m.data() == prepared {
+                let xs = self.txs_list_id(&blk_txs(&b));
+                return format!(
+                    "{}.{}.{}.{}:{}.{}",
+                    b.height,
+                    b.time_s,
+                    b.proposer,
+                    b.round,
+                    if b.ve == "none" { "none".to_string() } else { b.ve.replace('/', "~") },
+                    xs
+                );
+            }
+        }
+        "unknown".to_string()
+    }
+}
+
+// ------------------------------------------------------------------------------------------
+// op execution
+// ------------------------------------------------------------------------------------------
+
+impl World {
+    async fn run(&mut self, op: &str) -> String {
+        let res = self.exec(op).await;
+        self.trace.line(&format!("{op} => {res}"));
+        res
+    }
+
+    async fn exec(&mut self, op: &str) -> String {
+        let words: Vec<&str> = op.split(' ').collect();
+        assert_eq!(words[0], "abci", "bad area in op: {op}");
+        let a = args(op);
+        match words[1] {
+            "reset" => self.op_reset(&a).await,
+            "mktx" => self.op_mktx(&a).await,
+            "clearmp" => {
+                let i = arg_u64(&a, "i") as usize;
+                let metrics = self.insts[i].app.metrics;
+                self.insts[i].app.mempool = Mempool::new(metrics, 100, 100);
+                "ok".to_string()
+            }
+            "insert" => self.op_insert(&a).await,
+            "prepare" => self.op_prepare(&a).await,
+            "variant" => self.op_variant(&a),
+            "mutate" => self.op_mutate(&a),
+            "process" => self.op_process(&a).await,
+            "finalize" => self.op_finalize(&a).await,
+            "commit" => self.op_commit(&a).await,
+            "restart" => {
+                let i = arg_u64(&a, "i") as usize;
+                restart(&mut self.insts[i]).await;
+                format!("ok exec={}", self.exec_dump(i))
+            }
+            other => panic!("unknown op {other}"),
+        }
+    }
+
+    async fn op_reset(&mut self, a: &HashMap<String, String>) -> String {
+        let k = arg_u64(a, "k") as usize;
+        self.insts.clear();
+        self.txs.clear();
+        self.blks.clear();
+        self.txs_lists.clear();
+        self.byte_ids.clear();
+        for _ in 0..k {
+            self.insts.push(new_inst(&self.dave).await);
+        }
+        let _ = self.rec.take();
+        let mut roots = vec![];
+        for inst in &self.insts {
+            roots.push(h16(inst.app.app_hash.as_bytes()));
+        }
+        let same = roots.iter().all(|r| *r == roots[0]);
+        format!(
+            "ok h={} same={} exec={}",
+            committed_height(&self.insts[0]).await,
+            u8::from(same),
+            self.exec_dump(0)
+        )
+    }
+
+    async fn op_mktx(&mut self, a: &HashMap<String, String>) -> String {
+        let id = arg_id(a, "t");
+        let signer = a["s"].clone();
+        let nonce = arg_u64(a, "n") as u32;
+        let acts = a["a"].clone();
+        let Some(bytes) = sign_tx(self, &signer, nonce, &acts) else {
+            return "err:build".to_string();
+        };
+        let snap = self.insts[0].storage.latest_snapshot();
+        let checked = CheckedTransaction::new(bytes.clone(), &snap).await;
+        let _ = self.rec.take();
+        match checked {
+            Ok(tx) => {
+                let seq: usize = tx.rollup_data_bytes().map(|(_, d)| d.len()).sum();
+                let ent = TxEnt {
+                    len: bytes.len(),
+                    seq,
+                    group: group_num(tx.group()),
+                    tx: Some(Arc::new(tx)),
+                    bytes,
+                    spec: acts,
+                    signer,
+                    nonce,
+                };
+                let r = format!("ok len={} seq={} g={}", ent.len, ent.seq, ent.group);
+                self.txs.insert(id, ent);
+                r
+            }
+            Err(_) => "err:construct".to_string(),
+        }
+    }
+
+    async fn op_insert(&mut self, a: &HashMap<String, String>) -> String {
+        let i = arg_u64(a, "i") as usize;
+        let id = arg_id(a, "t");
+        let Some(ent) = self.txs.get(&id) else {
+            return "err:notx".to_string();
+        };
+        let Some(tx) = ent.tx.clone() else {
+            return "err:notx".to_string();
+        };
+        let snap = self.insts[i].storage.latest_snapshot();
+        let nonce = snap.get_account_nonce(tx.address_bytes()).await.unwrap();
+        // `force=1`: hand the mempool the tx's own nonce as the account nonce so that a tx that
+        // will fail with an invalid nonce still reaches the builder queue
+        let nonce = if a.get("force").map(String::as_str) == Some("1") {
+            tx.nonce()
+        } else {
+            nonce
+        };
+        let r = self.insts[i]
+            .app
+            .mempool
+            .insert(tx, nonce, &dummy_balances(0, 0), dummy_tx_costs(0, 0, 0))
+            .await;
+        let _ = self.rec.take();
+        match r {
+            Ok(_) => "ok".to_string(),
+            Err(e) => format!("err:{e:?}"),
+        }
+    }
+
+    fn tx_id_of_bytes(&self, bytes: &Bytes) -> Option<u32> {
+        self.txs
+            .iter()
+            .find(|(_, e)| e.bytes == *bytes)
+            .map(|(id, _)| *id)
+    }
+
+    async fn op_prepare(&mut self, a: &HashMap<String, String>) -> String {
+        let i = arg_u64(a, "i") as usize;
+        let bid = arg_id(a, "b");
+        let height = arg_u64(a, "h");
+        let round = arg_u64(a, "r") as u16;
+        let max: i64 = a["max"].parse().unwrap();
+        let time_s: i64 = a["t"].parse().unwrap();
+        let proposer = arg_u64(a, "p") as u8;
+        let ve = a["ve"].clone();
+        let (eci, _plain, nprices) = build_ve(&ve, height);
+        let lc_round = eci.round.value() as u16;
+        let _ = round;
+
+        let queue = self.insts[i].app.mempool.builder_queue().await;
+        let mut q = vec![];
+        let mut qids = vec![];
+        for tx in &queue {
+            let id = self.tx_id_of_bytes(tx.encoded_bytes()).unwrap_or(0);
+            let e = &self.txs[&id];
+            q.push(format!("{}:{}:{}:{}", id, e.len, e.seq, e.group));
+            qids.push(id);
+        }
+        // size of the extended-commit-info item the code will try to add first, and of the empty
+        // fallback item
+        let full_eci_len = {
+            let snap = self.insts[i].storage.latest_snapshot();
+            let info = ProposalHandler::prepare_proposal(&snap, height, eci.clone())
+                .await
+                .unwrap_or_else(|_| ExtendedCommitInfoWithCurrencyPairMapping::empty(eci.round));
+            DataItem::ExtendedCommitInfo(info.into_raw().encode_to_vec().into())
+                .encode()
+                .len()
+        };
+        let empty_eci_len = DataItem::ExtendedCommitInfo(Bytes::new()).encode().len();
+
+        let req = abci::request::PrepareProposal {
+            max_tx_bytes: max,
+            txs: vec![],
+            local_last_commit: Some(eci),
+            misbehavior: vec![],
+            height: Height::try_from(height).unwrap(),
+            time: Time::from_unix_timestamp(time_s, 0).unwrap(),
+            next_validators_hash: Hash::default(),
+            proposer_address: account::Id::new([proposer; 20]),
+        };
+        let _ = self.rec.take();
+        let storage = self.insts[i].storage.clone();
+        let res = self.insts[i].app.prepare_proposal(req, storage).await;
+        let log = self.rec.take();
+        let ph = phases(&log);
+        let chk = check_outcomes(&log);
+        let mut o = String::new();
+        for k in 0..queue.len() {
+            o.push(chk.get(k).copied().unwrap_or('_'));
+        }
+        if o.is_empty() {
+            o.push('-');
+        }
+        let qs = if q.is_empty() {
+            "-".to_string()
+        } else {
+            q.join(";")
+        };
+        match res {
+            Ok(resp) => {
+                let n_inj = 3;
+                let mut items = vec![];
+                let mut inc = vec![];
+                for (k, bytes) in resp.txs.iter().enumerate() {
+                    let kind = match k {
+                        0 => ItemKind::R1,
+                        1 => ItemKind::R2,
+                        2 => ItemKind::Eci,
+                        _ => match self.tx_id_of_bytes(bytes) {
+                            Some(id) => {
+                                inc.push(id.to_string());
+                                ItemKind::Tx(id)
+                            }
+                            None => ItemKind::Garbage,
+                        },
+                    };
+                    items.push((bytes.clone(), kind));
+                }
+                let cb: usize = resp.txs.iter().map(Bytes::len).sum();
+                let sb: usize = items
+                    .iter()
+                    .filter_map(|(_, k)| match k {
+                        ItemKind::Tx(t) => Some(self.txs[t].seq),
+                        _ => None,
+                    })
+                    .sum();
+                let deposits = self.insts[i].app.state.get_cached_block_deposits();
+                let eci_len = items.get(2).map_or(0, |(b, _)| b.len());
+                let blk = Blk {
+                    height,
+                    time_s,
+                    proposer,
+                    round: lc_round,
+                    ve,
+                    items,
+                    deposits,
+                    salt: 0,
+                    honest: true,
+                    mutation: "prepare".to_string(),
+                    prices: 0,
+                    by: i,
+                };
+                let mut blk = blk;
+                blk.prices = blk.items.get(2).map_or(0, |(b, _)| eci_price_count(b));
+                self.blks.insert(bid, blk);
+                let desc = self.blk_desc(bid);
+                format!(
+                    "ok q={qs} o={o} inj={full_eci_len}/{empty_eci_len} | inc={} cb={cb} sb={sb} shape={} exec={} \
+                     ph={ph} | {desc}",
+                    if inc.is_empty() { "-".to_string() } else { inc.join(",") },
+                    shape_of(&self.blks[&bid]),
+                    self.exec_dump(i),
+                )
+            }
+            Err(e) => format!(
+                "err:{} q={qs} o={o} inj={full_eci_len}/{empty_eci_len} | exec={} ph={ph}",
+                err_kind(&e),
+                self.exec_dump(i)
+            ),
+        }
+    }
+
+    fn op_variant(&mut self, a: &HashMap<String, String>) -> String {
+        let bid = arg_id(a, "b");
+        let from = arg_id(a, "from");
+        let Some(mut b) = self.blks.get(&from).cloned() else {
+            return "err:noblock".to_string();
+        };
+        let v = arg_u64(a, "v");
+        match a["f"].as_str() {
+            "p" => b.proposer = v as u8,
+            "t" => b.time_s = v as i64,
+            "salt" => b.salt = v as u32,
+            other => panic!("unknown variant field {other}"),
+        }
+        b.honest = false;
+        b.mutation = format!("variant:{}", a["f"]);
+        self.blks.insert(bid, b);
+        format!("ok | {}", self.blk_desc(bid))
+    }
+
+    /// single-field mutations of a block (C06)
+    fn op_mutate(&mut self, a: &HashMap<String, String>) -> String {
+        let bid = arg_id(a, "b");
+        let from = arg_id(a, "from");
+        let Some(mut b) = self.blks.get(&from).cloned() else {
+            return "err:noblock".to_string();
+        };
+        let kind = a["k"].clone();
+        let x = a.get("x").and_then(|s| s.parse::<usize>().ok()).unwrap_or(0);
+        let first_tx = b
+            .items
+            .iter()
+            .position(|(_, k)| matches!(k, ItemKind::Tx(_) | ItemKind::Garbage))
+            .unwrap_or(b.items.len());
+        let ntx = b.items.len() - first_tx;
+        let mut recompute = false;
+        match kind.as_str() {
+            "root1" | "root2" => {
+                let idx = if kind == "root1" { 0 } else { 1 };
+                let mut v = b.items[idx].0.to_vec();
+                let last = v.len() - 1 - (x % 32);
+                v[last] ^= 1 << (x % 8);
+                b.items[idx].0 = Bytes::from(v);
+            }
+            "swaproots" => b.items.swap(0, 1),
+            "drop0" => {
+                b.items.remove(0);
+            }
+            "drop1" => {
+                b.items.remove(1);
+            }
+            "dropE" => {
+                if let Some(p) = b.items.iter().position(|(_, k)| *k == ItemKind::Eci) {
+                    b.items.remove(p);
+                } else {
+                    return "err:inapplicable".to_string();
+                }
+            }
+            "Elast" => {
+                let Some(p) = b.items.iter().position(|(_, k)| *k == ItemKind::Eci) else {
+                    return "err:inapplicable".to_string();
+                };
+                if ntx == 0 {
+                    return "err:inapplicable".to_string();
+                }
+                let it = b.items.remove(p);
+                b.items.push(it);
+            }
+            "Efirst" => {
+                let Some(p) = b.items.iter().position(|(_, k)| *k == ItemKind::Eci) else {
+                    return "err:inapplicable".to_string();
+                };
+                let it = b.items.remove(p);
+                b.items.insert(0, it);
+            }
+            "garbage" => {
+                if ntx == 0 {
+                    return "err:inapplicable".to_string();
+                }
+                let p = first_tx + x % ntx;
+                let len = b.items[p].0.len().max(8);
+                let g: Vec<u8> = (0..len).map(|i| 0xff_u8.wrapping_sub((i * 7) as u8)).collect();
+                b.items[p] = (Bytes::from(g), ItemKind::Garbage);
+            }
+            "unsigned" => {
+                if ntx == 0 {
+                    return "err:inapplicable".to_string();
+                }
+                let p = first_tx + x % ntx;
+                let Ok(mut raw) = raw_tx::Transaction::decode(b.items[p].0.clone()) else {
+                    return "err:inapplicable".to_string();
+                };
+                let mut sig = raw.signature.to_vec();
+                if sig.is_empty() {
+                    return "err:inapplicable".to_string();
+                }
+                let k = x % sig.len();
+                sig[k] ^= 0x10;
+                raw.signature = Bytes::from(sig);
+                b.items[p] = (Bytes::from(raw.encode_to_vec()), ItemKind::Garbage);
+            }
+            "regroup" => {
+                // move a transaction of a numerically smaller group in front of one with a larger
+                // group: afterwards the larger-group tx follows a smaller-group one
+                let groups: Vec<u8> = b.items[first_tx..]
+                    .iter()
+                    .map(|(_, k)| match k {
+                        ItemKind::Tx(t) => self.txs[t].group,
+                        _ => 0,
+                    })
+                    .collect();
+                let mut found = None;
+                for j in 1..groups.len() {
+                    if groups[j] != 0 && groups[j - 1] != 0 && groups[j] < groups[j - 1] {
+                        found = Some(j);
+                        break;
+                    }
+                }
+                let Some(j) = found else {
+                    return "err:inapplicable".to_string();
+                };
+                b.items.swap(first_tx + j - 1, first_tx + j);
+                recompute = true;
+            }
+            "fatal" | "overseq" | "append" => {
+                // append given transactions (t=…,…) and recompute the commitments so that the
+                // commitments are NOT the reason for a rejection
+                for t in a["t"].split(',') {
+                    let id: u32 = t.trim_start_matches('t').parse().unwrap();
+                    let Some(e) = self.txs.get(&id) else {
+                        return "err:notx".to_string();
+                    };
+                    b.items.push((e.bytes.clone(), ItemKind::Tx(id)));
+                }
+                recompute = true;
+            }
+            "dup" => {
+                if ntx == 0 {
+                    return "err:inapplicable".to_string();
+                }
+                let it = b.items[first_tx + x % ntx].clone();
+                b.items.push(it);
+                recompute = true;
+            }
+            other => panic!("unknown mutation {other}"),
+        }
+        if recompute {
+            let mut checked = vec![];
+            for (_, kind) in &b.items {
+                if let ItemKind::Tx(t) = kind {
+                    if let Some(tx) = &self.txs[t].tx {
+                        checked.push(tx.clone());
+                    }
+                }
+            }
+            let c = generate_rollup_datas_commitment::<true>(&checked, b.deposits.clone());
+            let mut it = c.into_iter();
+            if let Some(p) = b.items.iter().position(|(_, k)| *k == ItemKind::R1) {
+                b.items[p].0 = it.next().unwrap();
+            }
+            if let Some(p) = b.items.iter().position(|(_, k)| *k == ItemKind::R2) {
+                b.items[p].0 = it.next().unwrap();
+            }
+        }
+        b.honest = false;
+        b.mutation = format!("mutate:{kind}");
+        self.blks.insert(bid, b);
+        format!("ok | {}", self.blk_desc(bid))
+    }
+
+    /// which of the block's transactions can be constructed against the committed state of
+    /// instance `i` (what `construct_checked_txs` does at block start): `1`/`0` per tx item
+    async fn constructible(&mut self, i: usize, b: &Blk) -> String {
+        let snap = self.insts[i].storage.latest_snapshot();
+        let mut s = String::new();
+        for (bytes, kind) in &b.items {
+            if matches!(kind, ItemKind::Tx(_) | ItemKind::Garbage) {
+                let ok = CheckedTransaction::new(bytes.clone(), &snap).await.is_ok();
+                s.push(if ok { '1' } else { '0' });
+            }
+        }
+        let _ = self.rec.take();
+        if s.is_empty() {
+            s.push('-');
+        }
+        s
+    }
+
+    async fn op_process(&mut self, a: &HashMap<String, String>) -> String {
+        let i = arg_u64(a, "i") as usize;
+        let bid = arg_id(a, "b");
+        let Some(b) = self.blks.get(&bid).cloned() else {
+            return "err:noblock".to_string();
+        };
+        let cs = self.constructible(i, &b).await;
+        let (_, plain, _) = build_ve(&b.ve, b.height);
+        let req = abci::request::ProcessProposal {
+            txs: blk_txs(&b),
+            proposed_last_commit: Some(plain),
+            misbehavior: vec![],
+            hash: Hash::Sha256(blk_hash(&b)),
+            height: Height::try_from(b.height).unwrap(),
+            time: time_of(&b),
+            next_validators_hash: Hash::default(),
+            proposer_address: proposer_of(&b),
+        };
+        let before = Arc::as_ptr(&self.insts[i].app.state);
+        let _ = self.rec.take();
+        let storage = self.insts[i].storage.clone();
+        let res = self.insts[i].app.process_proposal(req, storage).await;
+        let log = self.rec.take();
+        let reset = u8::from(before != Arc::as_ptr(&self.insts[i].app.state));
+        let ph = phases(&log);
+        let xo: String = exec_outcomes(&log).into_iter().collect();
+        let xo = if xo.is_empty() { "-".to_string() } else { xo };
+        let verdict = match res {
+            Ok(()) => "accept".to_string(),
+            Err(e) => format!("reject:{}", err_kind(&e)),
+        };
+        format!(
+            "{verdict} cs={cs} xo={xo} | exec={} rs={reset} ph={ph}",
+            self.exec_dump(i)
+        )
+    }
+
+    async fn op_finalize(&mut self, a: &HashMap<String, String>) -> String {
+        let i = arg_u64(a, "i") as usize;
+        let bid = arg_id(a, "b");
+        let Some(b) = self.blks.get(&bid).cloned() else {
+            return "err:noblock".to_string();
+        };
+        if self.insts[i].app.write_batch.is_some() {
+            return "err:already-finalized".to_string();
+        }
+        let cs = self.constructible(i, &b).await;
+        let (_, plain, _) = build_ve(&b.ve, b.height);
+        let req = abci::request::FinalizeBlock {
+            txs: blk_txs(&b),
+            decided_last_commit: plain,
+            misbehavior: vec![],
+            hash: Hash::Sha256(blk_hash(&b)),
+            height: Height::try_from(b.height).unwrap(),
+            time: time_of(&b),
+            next_validators_hash: Hash::default(),
+            proposer_address: proposer_of(&b),
+        };
+        let _ = self.rec.take();
+        let storage = self.insts[i].storage.clone();
+        let res = self.insts[i].app.finalize_block(req, storage).await;
+        let log = self.rec.take();
+        let ph = phases(&log);
+        let xo: String = exec_outcomes(&log).into_iter().collect();
+        let xo = if xo.is_empty() { "-".to_string() } else { xo };
+        match res {
+            Ok(resp) => {
+                let codes: Vec<String> = resp
+                    .tx_results
+                    .iter()
+                    .map(|r| r.code.value().to_string())
+                    .collect();
+                let mut vus: Vec<String> = resp
+                    .validator_updates
+                    .iter()
+                    .map(|u| format!("{}:{}", h8(&u.pub_key.to_bytes()), u.power.value()))
+                    .collect();
+                vus.sort();
+                let cpu = resp
+                    .consensus_param_updates
+                    .as_ref()
+                    .map_or("none".to_string(), |p| {
+                        h8(&Sha256::digest(format!("{p:?}").as_bytes()))
+                    });
+                let mut evh = Sha256::new();
+                for ev in &resp.events {
+                    evh.update(format!("{ev:?}").as_bytes());
+                }
+                format!(
+                    "ok app={} res={} vu={} cpu={} ev={}:{} cs={cs} xo={xo} | exec={} ph={ph}",
+                    h16(resp.app_hash.as_bytes()),
+                    if codes.is_empty() { "-".to_string() } else { codes.join(",") },
+                    if vus.is_empty() { "-".to_string() } else { vus.join(",") },
+                    cpu,
+                    resp.events.len(),
+                    h8(&evh.finalize()),
+                    self.exec_dump(i),
+                )
+            }
+            Err(e) => format!(
+                "err:{} cs={cs} xo={xo} | exec={} ph={ph}",
+                err_kind(&e),
+                self.exec_dump(i)
+            ),
+        }
+    }
+
+    async fn op_commit(&mut self, a: &HashMap<String, String>) -> String {
+        let i = arg_u64(a, "i") as usize;
+        if self.insts[i].app.write_batch.is_none() {
+            return "err:nobatch".to_string();
+        }
+        let storage = self.insts[i].storage.clone();
+        let r = self.insts[i].app.commit(storage).await;
+        let _ = self.rec.take();
+        match r {
+            Ok(_) => format!(
+                "ok h={} app={} {} exec={}",
+                committed_height(&self.insts[i]).await,
+                h16(self.insts[i].app.app_hash.as_bytes()),
+                state_digest(&self.insts[i].storage).await,
+                self.exec_dump(i)
+            ),
+            Err(_) => "err:commit".to_string(),
+        }
+    }
+}
+
+// ------------------------------------------------------------------------------------------
+// generators
+// ------------------------------------------------------------------------------------------
+
+struct Gen {
+    rng: Rng,
+    next_tx: u32,
+    next_blk: u32,
+    bridge_ready: bool,
+    erin_is_validator: bool,
+    relayer_erin: bool,
+    extra_pair: bool,
+}
+
+impl Gen {
+    fn new(rng: Rng) -> Self {
+        Gen {
+            rng,
+            next_tx: 1,
+            next_blk: 1,
+            bridge_ready: false,
+            erin_is_validator: false,
+            relayer_erin: false,
+            extra_pair: false,
+        }
+    }
+
+    fn tx(&mut self) -> u32 {
+        self.next_tx += 1;
+        self.next_tx - 1
+    }
+
+    fn blk(&mut self) -> u32 {
+        self.next_blk += 1;
+        self.next_blk - 1
+    }
+
+    fn ve(&mut self) -> String {
+        match self.rng.below(10) {
+            0..=2 => "none".to_string(),
+            3 => format!("{}/-/-/-", self.rng.below(2)),
+            4 => format!("{}/{}:{}/bad/{}:{}", self.rng.below(3), self.price(), self.price(), self.price(), self.price()),
+            5 => format!("{}/{}:{}/-/{}:{}", self.rng.below(3), self.price(), self.price(), self.price(), self.price()),
+            6 => format!("{}/{}:_/{}:{}/_:{}", self.rng.below(3), self.price(), self.price(), self.price(), self.price()),
+            _ => format!(
+                "{}/{}:{}/{}:{}/{}:{}",
+                self.rng.below(3),
+                self.price(),
+                self.price(),
+                self.price(),
+                self.price(),
+                self.price(),
+                self.price()
+            ),
+        }
+    }
+
+    fn price(&mut self) -> u64 {
+        1 + self.rng.below(100_000)
+    }
+}
+
+async fn committed_nonce(w: &World, signer: &str) -> u32 {
+    let snap = w.insts[0].storage.latest_snapshot();
+    snap.get_account_nonce(&key_of(w, signer).address_bytes())
+        .await
+        .unwrap()
+}
+
+/// generates a pool of mostly valid transactions with consecutive nonces per signer on top of
+/// the committed state; returns the ids of the successfully constructed ones
+async fn gen_pool(w: &mut World, g: &mut Gen, adversarial: bool) -> Vec<u32> {
+    let mut pool = vec![];
+    let general = ["alice", "bob", "carol"];
+    for signer in general {
+        let count = g.rng.below(4);
+        let mut nonce = committed_nonce(w, signer).await;
+        for _ in 0..count {
+            let mut acts = vec![];
+            for _ in 0..=g.rng.below(2) {
+                let others = ["alice", "bob", "carol", "dave", "erin"];
+                let spec = match g.rng.below(10) {
+                    0..=3 => format!("xfer.{}.{}", g.rng.pick(&others), 1 + g.rng.below(1000)),
+                    4..=6 => {
+                        let len = match g.rng.below(6) {
+                            0 => 0,
+                            1 => g.rng.below(40),
+                            2 => g.rng.below(3000),
+                            3 => 20_000 + g.rng.below(40_000),
+                            _ => g.rng.below(400),
+                        };
+                        format!("seq.{}.{}", 1 + g.rng.below(3), len)
+                    }
+                    7 if g.bridge_ready => format!("lock.dave.{}", 1 + g.rng.below(500)),
+                    8 if adversarial => format!("xfer.bob.{}", u128::MAX / 3),
+                    _ => format!("xfer.{}.{}", g.rng.pick(&others), 1 + g.rng.below(50)),
+                };
+                acts.push(spec);
+            }
+            let id = g.tx();
+            let r = w
+                .run(&format!("abci mktx t=t{id} s={signer} n={nonce} a={}", acts.join("+")))
+                .await;
+            if r.starts_with("ok") {
+                pool.push(id);
+                nonce += 1;
+            }
+        }
+    }
+    // dave: bridge account initialisation (unbundleable general), once
+    if !g.bridge_ready && g.rng.chance(60) {
+        let nonce = committed_nonce(w, "dave").await;
+        let id = g.tx();
+        let r = w
+            .run(&format!("abci mktx t=t{id} s=dave n={nonce} a=initbridge.1"))
+            .await;
+        if r.starts_with("ok") {
+            pool.push(id);
+        }
+    }
+    // sudo: validator updates (general group), bundleable sudo actions, unbundleable sudo
+    if g.rng.chance(70) {
+        let mut nonce = committed_nonce(w, "sudo").await;
+        let count = 1 + g.rng.below(3);
+        for _ in 0..count {
+            let spec = match g.rng.below(8) {
+                0 | 1 => format!(
+                    "valup.{}.{}",
+                    g.rng.pick(&["alice", "bob", "carol", "erin"]),
+                    if g.rng.chance(15) { 0 } else { 1 + g.rng.below(30) }
+                ),
+                2 => format!("feechg.{}", g.rng.below(50)),
+                3 => "sudo.sudo".to_string(),
+                4 => format!("pair.{}.SOL", if g.extra_pair { "rm" } else { "add" }),
+                5 => format!("feeasset.add.asset{}", g.rng.below(3)),
+                6 => format!("feechg.{}+feeasset.add.other{}", g.rng.below(50), g.rng.below(3)),
+                _ => format!("valup.erin.{}", 1 + g.rng.below(30)),
+            };
+            let id = g.tx();
+            let r = w
+                .run(&format!("abci mktx t=t{id} s=sudo n={nonce} a={spec}"))
+                .await;
+            if r.starts_with("ok") {
+                pool.push(id);
+                nonce += 1;
+            }
+        }
+    }
+    // ibc sudo: relayer changes, failing ibc relay (non-fatal after Blackburn)
+    if g.rng.chance(50) {
+        let mut nonce = committed_nonce(w, "ibcsudo").await;
+        let count = 1 + g.rng.below(2);
+        for _ in 0..count {
+            let spec = match g.rng.below(3) {
+                0 => format!("relayer.{}.erin", if g.relayer_erin { "rm" } else { "add" }),
+                _ => "badibc".to_string(),
+            };
+            let id = g.tx();
+            let r = w
+                .run(&format!("abci mktx t=t{id} s=ibcsudo n={nonce} a={spec}"))
+                .await;
+            if r.starts_with("ok") {
+                pool.push(id);
+                // a failing ibc relay does not advance the nonce
+                if spec != "badibc" {
+                    nonce += 1;
+                }
+            }
+        }
+    }
+    pool
+}
+
+/// after a commit: refresh the generator's view of chain facts it uses to stay mostly-valid
+async fn refresh(w: &World, g: &mut Gen) {
+    use crate::{
+        bridge::StateReadExt as _,
+        ibc::StateReadExt as _,
+        oracles::price_feed::oracle::state_ext::StateReadExt as _,
+    };
+    let snap = w.insts[0].storage.latest_snapshot();
+    g.bridge_ready = snap
+        .get_bridge_account_rollup_id(&w.dave.address_bytes())
+        .await
+        .ok()
+        .flatten()
+        .is_some();
+    g.relayer_erin = snap
+        .is_ibc_relayer(&erin_key().address_bytes())
+        .await
+        .unwrap_or(false);
+    let sol: CurrencyPair = "SOL/USD".parse().unwrap();
+    g.extra_pair = snap
+        .get_currency_pair_id(&sol)
+        .await
+        .ok()
+        .flatten()
+        .is_some();
+}
+
+const K: usize = 5;
+
+/// C05: a multi-block history fed to K instances by different legal call orders
+async fn gen_c05(w: &mut World, g: &mut Gen, heights: usize) {
+    w.run(&format!("abci reset k={K}")).await;
+    for _ in 0..heights {
+        refresh(w, g).await;
+        let height = committed_height(&w.insts[0]).await + 1;
+        let adversarial = g.rng.chance(30);
+        let pool = gen_pool(w, g, adversarial).await;
+        let rounds = 1 + usize::from(g.rng.chance(45)) + usize::from(g.rng.chance(15));
+        let mut prepared_by: Vec<Option<u32>> = vec![None; K];
+        let mut blocks: Vec<u32> = vec![];
+        let mut final_proposer = 0;
+        for r in 0..rounds {
+            let proposer = g.rng.below(K as u64) as usize;
+            final_proposer = proposer;
+            w.run(&format!("abci clearmp i={proposer}")).await;
+            for t in &pool {
+                if r + 1 == rounds || g.rng.chance(60) {
+                    w.run(&format!("abci insert i={proposer} t=t{t}")).await;
+                }
+            }
+            let max = match g.rng.below(6) {
+                0 => 300 + g.rng.below(3000),
+                1 => 20_000 + g.rng.below(60_000),
+                _ => 1_000_000,
+            };
+            let b = g.blk();
+            let ve = g.ve();
+            let res = w
+                .run(&format!(
+                    "abci prepare i={proposer} b=b{b} h={height} r={r} max={max} t={} p={} ve={ve}",
+                    1_750_000_000 + height * 100 + r as u64,
+                    proposer + 1,
+                ))
+                .await;
+            if !res.starts_with("ok") {
+                // a failing prepare crashes the node: restart it, try another round
+                w.run(&format!("abci restart i={proposer}")).await;
+                continue;
+            }
+            prepared_by[proposer] = Some(b);
+            blocks.push(b);
+            if r + 1 < rounds {
+                // an undecided round: some validators see the proposal, some do not
+                for i in 0..K {
+                    if i != proposer && g.rng.chance(50) {
+                        w.run(&format!("abci process i={i} b=b{b}")).await;
+                    } else if i == proposer && g.rng.chance(70) {
+                        w.run(&format!("abci process i={i} b=b{b}")).await;
+                    }
+                }
+                if g.rng.chance(25) {
+                    // a proposal for the same txs by "someone else" (differs in one fingerprint field)
+                    let v = g.blk();
+                    let field = *g.rng.pick(&["p", "t", "salt"]);
+                    let val = if field == "t" { 1_750_000_000 + height * 100 + 77 } else { 9 };
+                    let r = w
+                        .run(&format!("abci variant b=b{v} from=b{b} f={field} v={val}"))
+                        .await;
+                    if r.starts_with("ok") {
+                        for i in 0..K {
+                            if g.rng.chance(40) {
+                                w.run(&format!("abci process i={i} b=b{v}")).await;
+                            }
+                        }
+                    }
+                }
+            }
+        }
+        let Some(&decided) = blocks.last() else {
+            continue;
+        };
+        // per-instance paths to the decided block
+        for i in 0..K {
+            if i == final_proposer && prepared_by[i] == Some(decided) {
+                match g.rng.below(10) {
+                    0 => {}
+                    1 => {
+                        w.run(&format!("abci restart i={i}")).await;
+                    }
+                    2 => {
+                        w.run(&format!("abci process i={i} b=b{decided}")).await;
+                        w.run(&format!("abci process i={i} b=b{decided}")).await;
+                    }
+                    _ => {
+                        w.run(&format!("abci process i={i} b=b{decided}")).await;
+                    }
+                }
+                continue;
+            }
+            match g.rng.below(9) {
+                0 | 1 => {
+                    w.run(&format!("abci process i={i} b=b{decided}")).await;
+                }
+                2 => {}
+                3 => {
+                    w.run(&format!("abci process i={i} b=b{decided}")).await;
+                    w.run(&format!("abci restart i={i}")).await;
+                }
+                4 => {
+                    w.run(&format!("abci restart i={i}")).await;
+                }
+                5 => {
+                    let m = g.blk();
+                    let kind = *g.rng.pick(&["root1", "root2", "garbage", "dropE", "dup", "swaproots"]);
+                    let r = w
+                        .run(&format!(
+                            "abci mutate b=b{m} from=b{decided} k={kind} x={}",
+                            g.rng.below(64)
+                        ))
+                        .await;
+                    if r.starts_with("ok") {
+                        w.run(&format!("abci process i={i} b=b{m}")).await;
+                    }
+                    w.run(&format!("abci process i={i} b=b{decided}")).await;
+                }
+                6 => {
+                    w.run(&format!("abci process i={i} b=b{decided}")).await;
+                    w.run(&format!("abci process i={i} b=b{decided}")).await;
+                }
+                7 => {
+                    // same content re-proposed under a different hash first
+                    let v = g.blk();
+                    let r = w
+                        .run(&format!("abci variant b=b{v} from=b{decided} f=salt v=5"))
+                        .await;
+                    if r.starts_with("ok") {
+                        w.run(&format!("abci process i={i} b=b{v}")).await;
+                    }
+                    if g.rng.chance(50) {
+                        w.run(&format!("abci process i={i} b=b{decided}")).await;
+                    }
+                }
+                _ => {
+                    w.run(&format!("abci process i={i} b=b{decided}")).await;
+                }
+            }
+        }
+        let mut all_ok = true;
+        for i in 0..K {
+            let r = w.run(&format!("abci finalize i={i} b=b{decided}")).await;
+            all_ok &= r.starts_with("ok");
+        }
+        if !all_ok {
+            // a failed finalize is a node crash; the session cannot continue
+            return;
+        }
+        for i in 0..K {
+            w.run(&format!("abci commit i={i}")).await;
+        }
+    }
+}
+
+const MUTATIONS: &[&str] = &[
+    "root1", "root2", "swaproots", "drop0", "drop1", "dropE", "Elast", "Efirst", "garbage", "unsigned",
+    "regroup", "dup",
+];
+
+/// C06: mempool contents around the limits -> real prepare on A (sweep of max_tx_bytes), real
+/// process on B, single-field mutations processed on C.
+async fn gen_c06(w: &mut World, g: &mut Gen, mempools: usize, advance: bool) {
+    w.run("abci reset k=3").await;
+    for round in 0..mempools {
+        refresh(w, g).await;
+        let height = committed_height(&w.insts[0]).await + 1;
+        let mut pool = gen_pool(w, g, true).await;
+        // sizes around the sequenced-data limit (256 000) and the per-tx limit
+        if g.rng.chance(70) {
+            let signer = *g.rng.pick(&["alice", "bob", "carol"]);
+            let mut nonce = committed_nonce(w, signer).await
+                + pool.iter().filter(|t| w.txs[t].signer == signer).count() as u32;
+            let sizes: Vec<u64> = match g.rng.below(5) {
+                0 => vec![128_000, 128_000, 1],
+                1 => vec![200_000, 56_000, 0, 1],
+                2 => vec![100_000, 100_000, 56_001, 55_999],
+                3 => vec![255_000, 999, 1, 1],
+                _ => vec![60_000 + g.rng.below(100_000), 60_000 + g.rng.below(100_000), g.rng.below(90_000)],
+            };
+            for len in sizes {
+                let id = g.tx();
+                let r = w
+                    .run(&format!("abci mktx t=t{id} s={signer} n={nonce} a=seq.{}.{len}", 1 + g.rng.below(3)))
+                    .await;
+                if r.starts_with("ok") {
+                    pool.push(id);
+                    nonce += 1;
+                }
+            }
+        }
+        // candidates for the `append` mutations: a fatally failing transfer, a replayed nonce,
+        // data that exceeds the sequenced-data limit
+        let fatal = g.tx();
+        let fatal_signer = "dave";
+        let fatal_nonce = committed_nonce(w, fatal_signer).await
+            + pool.iter().filter(|t| w.txs[t].signer == fatal_signer).count() as u32;
+        w.run(&format!(
+            "abci mktx t=t{fatal} s={fatal_signer} n={fatal_nonce} a=xfer.bob.{}",
+            u128::MAX / 2
+        ))
+        .await;
+        let big1 = g.tx();
+        let big2 = g.tx();
+        w.run(&format!("abci mktx t=t{big1} s={fatal_signer} n={fatal_nonce} a=seq.7.200000"))
+            .await;
+        w.run(&format!(
+            "abci mktx t=t{big2} s={fatal_signer} n={} a=seq.7.200000",
+            fatal_nonce + 1
+        ))
+        .await;
+
+        // first an unconstrained proposal to learn the sizes, then the sweep
+        let mut sweep: Vec<u64> = vec![1_000_000];
+        let mut best: Option<u32> = None;
+        let mut k = 0;
+        while k < sweep.len() {
+            let max = sweep[k];
+            w.run("abci clearmp i=0").await;
+            for t in &pool {
+                let force = if g.rng.chance(5) { " force=1" } else { "" };
+                w.run(&format!("abci insert i=0 t=t{t}{force}")).await;
+            }
+            let b = g.blk();
+            let ve = if k == 0 { g.ve() } else { w.blks.get(&best.unwrap_or(0)).map_or("none".to_string(), |b| b.ve.clone()) };
+            let res = w
+                .run(&format!(
+                    "abci prepare i=0 b=b{b} h={height} r=0 max={max} t={} p=1 ve={ve}",
+                    1_750_000_000 + height * 100
+                ))
+                .await;
+            if res.starts_with("ok") {
+                w.run(&format!("abci process i=1 b=b{b}")).await;
+                if k == 0 {
+                    best = Some(b);
+                    // derive the sweep from the sizes of the unconstrained proposal
+                    let blk = w.blks[&b].clone();
+                    let total: u64 = blk.items.iter().map(|(x, _)| x.len() as u64).sum();
+                    let inj: u64 = blk.items.iter().take(3).map(|(x, _)| x.len() as u64).sum();
+                    let first_tx = blk.items.get(3).map_or(0, |(x, _)| x.len() as u64);
+                    let mut cands = vec![
+                        total,
+                        total.saturating_sub(1),
+                        inj + first_tx,
+                        (inj + first_tx).saturating_sub(1),
+                        inj,
+                        inj.saturating_sub(1),
+                        68 + 4,
+                        68,
+                        67,
+                        (inj + total) / 2,
+                        inj + g.rng.below(total.saturating_sub(inj) + 1),
+                    ];
+                    cands.retain(|c| *c > 0);
+                    cands.dedup();
+                    let take = if common::is_thorough() { cands.len() } else { 5 };
+                    for _ in 0..take.min(cands.len()) {
+                        let pos = g.rng.below(cands.len() as u64) as usize;
+                        sweep.push(cands.remove(pos));
+                    }
+                }
+                // mutations of this honest proposal
+                let nmut = if k == 0 { MUTATIONS.len() } else { 2 };
+                for m in 0..nmut {
+                    let kind = if k == 0 { MUTATIONS[m] } else { *g.rng.pick(MUTATIONS) };
+                    let mb = g.blk();
+                    let r = w
+                        .run(&format!(
+                            "abci mutate b=b{mb} from=b{b} k={kind} x={}",
+                            g.rng.below(1000)
+                        ))
+                        .await;
+                    if r.starts_with("ok") {
+                        w.run(&format!("abci process i=2 b=b{mb}")).await;
+                    }
+                }
+                if k == 0 {
+                    for (kind, ts) in [
+                        ("fatal", format!("t{fatal}")),
+                        ("overseq", format!("t{big1},t{big2}")),
+                    ] {
+                        let mb = g.blk();
+                        let r = w
+                            .run(&format!("abci mutate b=b{mb} from=b{b} k={kind} t={ts}"))
+                            .await;
+                        if r.starts_with("ok") {
+                            w.run(&format!("abci process i=2 b=b{mb}")).await;
+                        }
+                    }
+                }
+            } else {
+                w.run("abci restart i=0").await;
+            }
+            k += 1;
+        }
+        if advance {
+            if let Some(b) = best {
+                let mut ok = true;
+                for i in 0..3 {
+                    let r = w.run(&format!("abci finalize i={i} b=b{b}")).await;
+                    ok &= r.starts_with("ok");
+                }
+                if !ok {
+                    return;
+                }
+                for i in 0..3 {
+                    w.run(&format!("abci commit i={i}")).await;
+                }
+            }
+        }
+        let _ = round;
+    }
+}
+
+// ------------------------------------------------------------------------------------------
+// driver
+// ------------------------------------------------------------------------------------------
+
 #[test]
 fn driver() {
-    let trace = common::Trace::from_env();
-    trace.finish();
+    let rec = Rec::default();
+    let _guard = tracing::subscriber::set_default(rec.clone());
+    let rt = tokio::runtime::Builder::new_current_thread()
+        .enable_all()
+        .build()
+        .unwrap();
+    rt.block_on(async move {
+        let mut w = World {
+            insts: vec![],
+            txs: BTreeMap::new(),
+            blks: BTreeMap::new(),
+            txs_lists: vec![],
+            byte_ids: vec![],
+            rec,
+            trace: Trace::from_env(),
+            dave: dave_key(),
+        };
+        if let Some(lines) = common::replay_lines() {
+            for op in lines {
+                w.run(&op).await;
+            }
+            w.trace.finish();
+            return;
+        }
+        for op in common::corpus_lines() {
+            w.run(&op).await;
+        }
+        let thorough = common::is_thorough();
+        let mut g = Gen::new(Rng::from_env());
+        let (sessions5, heights, sessions6, mempools) = if thorough {
+            (12, 30, 10, 10)
+        } else {
+            (3, 10, 3, 3)
+        };
+        for _ in 0..sessions5 {
+            let mut gg = Gen::new(Rng(g.rng.next()));
+            gen_c05(&mut w, &mut gg, heights).await;
+        }
+        for s in 0..sessions6 {
+            let mut gg = Gen::new(Rng(g.rng.next()));
+            gen_c06(&mut w, &mut gg, mempools, s % 2 == 0).await;
+        }
+        w.trace.finish();
+    });
 }
